@@ -219,6 +219,7 @@ func TestVerif_C30(t *testing.T) {
 	vfC30Rotation(rec, pki)
 	vfC30Relisten(rec, pki)
 	vfC30TLSOnlyUpdate(rec, pki)
+	vfC30ChainRotation(rec, pki)
 }
 
 func vfC30Start(tc *TLSConfig) (*AbsfsNFS, *Server, error) {
@@ -534,4 +535,69 @@ func vfC30TLSOnlyUpdate(rec *evid.Rec, pki *vfPKI) {
 		s2.Stop()
 		n.Close()
 	}
+}
+
+// vfC30ChainRotation: the server certificate file holds a chain (leaf + intermediate). The CA
+// re-issues its intermediate under another root and ships a new bundle: the SAME leaf followed by
+// the new intermediate. After ReloadCertificates has reported success, new handshakes present the
+// bundle that is in the file now: a client that trusts only the new root completes its handshake.
+func vfC30ChainRotation(rec *evid.Rec, pki *vfPKI) {
+	intKey, _ := ecdsa.GenerateKey(elliptic.P256(), rand.Reader)
+	mkInt := func(serial int64, root *x509.Certificate, rootKey *ecdsa.PrivateKey) (*x509.Certificate, []byte) {
+		tpl := &x509.Certificate{SerialNumber: big.NewInt(serial), Subject: pkix.Name{CommonName: "verif intermediate"}, NotBefore: time.Now().Add(-time.Hour), NotAfter: time.Now().Add(24 * time.Hour),
+			KeyUsage: x509.KeyUsageDigitalSignature | x509.KeyUsageCertSign, BasicConstraintsValid: true, IsCA: true}
+		der, err := x509.CreateCertificate(rand.Reader, tpl, root, &intKey.PublicKey, rootKey)
+		if err != nil {
+			return nil, nil
+		}
+		c, _ := x509.ParseCertificate(der)
+		return c, der
+	}
+	int1, int1DER := mkInt(501, pki.ca1, pki.ca1Key)
+	_, int2DER := mkInt(502, pki.ca2, pki.ca2Key)
+	if int1 == nil || int2DER == nil {
+		rec.Inconclusive(1)
+		return
+	}
+	leafDER, leafKey, _ := vfMkCert(600, "server-chain", false, int1, intKey, false)
+	chainFile, keyFile := filepath.Join(pki.dir, "chain.pem"), filepath.Join(pki.dir, "chain.key")
+	writeChain := func(intDER []byte) {
+		b := pem.EncodeToMemory(&pem.Block{Type: "CERTIFICATE", Bytes: leafDER})
+		b = append(b, pem.EncodeToMemory(&pem.Block{Type: "CERTIFICATE", Bytes: intDER})...)
+		os.WriteFile(chainFile, b, 0600)
+	}
+	writeChain(int1DER)
+	vfWritePEM(keyFile, "EC PRIVATE KEY", vfKeyDER(leafKey))
+	n, s, err := vfC30Start(&TLSConfig{Enabled: true, CertFile: chainFile, KeyFile: keyFile, MinVersion: tls.VersionTLS12, MaxVersion: tls.VersionTLS13})
+	if err != nil {
+		rec.Set("chain_rotation_start_error", err.Error())
+		rec.Inconclusive(1)
+		return
+	}
+	defer func() { s.Stop(); n.Close() }()
+	port := s.GetPort()
+	roots1, roots2 := x509.NewCertPool(), x509.NewCertPool()
+	roots1.AddCert(pki.ca1)
+	roots2.AddCert(pki.ca2)
+	before1, _, _, _ := vfTLSNull(port, roots1, tls.VersionTLS12, tls.VersionTLS13, nil, true)
+	if !before1 {
+		rec.Distinct("chain-rotation|first-chain-not-served")
+		return // the chain file as such is not served; nothing to learn about its rotation
+	}
+	writeChain(int2DER)
+	tlsOpts := n.GetExportOptions().TLS
+	if tlsOpts == nil {
+		rec.Inconclusive(1)
+		return
+	}
+	if err := tlsOpts.ReloadCertificates(); err != nil {
+		rec.Distinct("chain-rotation|reload-refused")
+		return
+	}
+	rec.Eval(2)
+	after2, _, _, err2 := vfTLSNull(port, roots2, tls.VersionTLS12, tls.VersionTLS13, nil, true)
+	if !after2 {
+		rec.Violate("C30/rotation/new-handshake-presents-old-chain", fmt.Sprintf("the certificate file was replaced by the same leaf with a re-issued intermediate (now chaining to CA2) and ReloadCertificates reported success; a client that trusts only CA2 cannot complete a new handshake: %v", err2), nil)
+	}
+	rec.Distinct(fmt.Sprintf("chain-rotation|new-root-client-served=%v", after2))
 }
